@@ -1,5 +1,6 @@
 (** Property C19 — diagnostics point inside the text they are attached to. *)
-From Tx3 Require Import Base Peg Peg_proofs.
+From Tx3 Require Import Base Peg Peg_proofs Peg_utf8.
+From Tx3.gen Require Import Grammar.
 
 (** every position the parser reaches lies inside the text it was given: a location derived
     from a parser position can always be rendered against the whole input *)
@@ -13,5 +14,23 @@ Theorem C19_position_is_consumed_length : forall g fuel atomic e inp pos rest po
   exists consumed, inp = (consumed ++ rest)%list /\ pos' = (pos + N.of_nat (length consumed))%N.
 Proof. exact run_adv. Qed.
 
+(** positions fall on character boundaries: over a grammar whose literals and ranges are ASCII
+    (boolean certificate [ascii_grammar]), a match against a text made of whole UTF-8 sequences
+    leaves a rest made of whole UTF-8 sequences, whatever the expression, mode and fuel *)
+Theorem C19_matches_end_on_character_boundaries : forall g, ascii_grammar g = true ->
+  forall fuel atomic e inp pos rest pos',
+  ascii_exp e = true -> chars inp -> run g fuel atomic e inp pos = RMatch rest pos' -> chars rest.
+Proof. exact run_chars. Qed.
+
+(** the grammar of the current tree (generated from tx3.pest on this run) carries the
+    certificate, so every position its parser reports from the start of a text is the offset of
+    a character boundary of that text: the text can be sliced there *)
+Theorem C19_tx3_positions_on_character_boundaries : forall fuel start inp rest pos',
+  chars inp -> run tx3_grammar fuel false (PIdent start) inp 0 = RMatch rest pos' ->
+  rest = drop (N.to_nat pos') inp /\ chars (drop (N.to_nat pos') inp).
+Proof. apply run_position_on_boundary. vm_compute. reflexivity. Qed.
+
 Print Assumptions C19_positions_within_text.
 Print Assumptions C19_position_is_consumed_length.
+Print Assumptions C19_matches_end_on_character_boundaries.
+Print Assumptions C19_tx3_positions_on_character_boundaries.
